@@ -1,7 +1,7 @@
 (* Interleaving model for C15: file-system operations of keyvalue.FS as resumable programs whose
    atomic steps are the store transactions (and the lazy directory listing, which reads the live
    store outside any transaction), exactly the scheduling points the harness forces on the real
-   code.  Alphabet: Mkdir, Remove, Stat -- enough to exhibit the check-then-act windows. *)
+   code.  Alphabet: Mkdir, Remove, Stat, Chmod, Rename of a non-directory. *)
 From HP Require Import Base.Prelude Base.Path KV.Types.
 Open Scope N_scope.
 
@@ -79,10 +79,49 @@ Definition p_remove (p : str) : cprog :=
     | inl false => CStep (fun s => (cdel s p, CDone COk))
     end).
 
-Inductive cop := CMkdir (p : str) | CRemove (p : str) | CStat (p : str).
+(* Chmod: getFile, then save() writes the WHOLE record it read back in one transaction (so a Chmod that overlaps a
+   Remove resurrects the entry: the kind is what this projection of the record shows) *)
+Definition p_chmod (p : str) : cprog :=
+  getfile p (fun r =>
+    match r with
+    | inr c => CDone (CErr c)
+    | inl d => CStep (fun s => (cset s p d, CDone COk))
+    end).
+
+(* Rename of a non-directory: look-ups of old, of new's parent, of new (one transaction each, plus the ancestor
+   walks), then ONE read-write transaction that stores the record under the new name and deletes the old one.
+   (Renaming a directory moves its descendants one by one: outside this model, answered EOTHER.) *)
+Definition p_rename (o n : str) : cprog :=
+  getfile o (fun r =>
+    match r with
+    | inr c => CDone (CErr c)
+    | inl true => CDone (CErr EOTHER)
+    | inl false =>
+      let look_new :=
+        getfile n (fun r3 =>
+          match r3 with
+          | inl true => CDone (CErr EEXIST)
+          | inl false | inr ENOENT =>
+            if str_eqb o n then CDone COk
+            else CStep (fun s => (cdel (cset s n false) o, CDone COk))
+          | inr c => CDone (CErr c)
+          end) in
+      if str_eqb o n || str_eqb n dot then look_new
+      else getfile (path_dir n) (fun r2 =>
+             match r2 with
+             | inr c => CDone (CErr c)
+             | inl false => CDone (CErr ENOTDIR)
+             | inl true => look_new
+             end)
+    end).
+
+Inductive cop := CMkdir (p : str) | CRemove (p : str) | CStat (p : str) | CChmod (p : str) | CRename (o n : str).
 
 Definition prog_of (o : cop) : cprog :=
-  match o with CMkdir p => p_mkdir p | CRemove p => p_remove p | CStat p => p_stat p end.
+  match o with
+  | CMkdir p => p_mkdir p | CRemove p => p_remove p | CStat p => p_stat p
+  | CChmod p => p_chmod p | CRename a b => p_rename a b
+  end.
 
 (* ---- sequential execution of one operation (all its steps in a row) ---- *)
 Fixpoint run_prog (fuel : nat) (s : cstore) (p : cprog) : cstore * option cres :=
